@@ -54,7 +54,7 @@ def hasDupVal : List Val → Bool
     against the statement-start snapshot; wrong as soon as one entity is targeted twice by the statement -/
 def repeatedTarget (g : Graph) (s : Stmt) : Bool :=
   let hasItem := s.updates.any fun
-    | .set its => its.any fun | .prop .. => false | _ => true
+    | .set _ => true
     | .remove _ => true
     | _ => false
   hasItem && hasDupVal (touched A params g s)
